@@ -296,6 +296,14 @@ func (w *World) BaseMem() map[string]AV {
 					continue
 				}
 				root, sel, ok := constAddrChain(st.Addr)
+				if ok && sel == "" && cv.Kind == KFunc {
+					// a package-level function variable that only its initialiser
+					// writes: calls through it resolve to that function
+					if g, isG := root.(*ssa.Global); isG && !written[g] && w.readOnlyOutsideInit(g) {
+						w.baseMem["G:"+globalName(g)] = cv
+					}
+					continue
+				}
 				if !ok || sel == "" {
 					continue
 				}
